@@ -182,6 +182,7 @@ def check_add(ctx, repo, cls):
                     hf = cls.methods.get(hn) or mod.functions.get(hn)
                     exact = None
                     if hf is not None:
+                        ctx.examined.add(hn)
                         ht = text(hf)
                         if any(k_ in ht for k_ in ("isclose", "allclose", "abs(", "fabs(", "tol", "round(")):
                             exact = False
